@@ -48,3 +48,12 @@ package internal
 //@   ensures y == sum k in 0..9 :: fmod(fdiv(y, pow10(k)), 10) * pow10(k)
 
 func LemmaDecDigits(y int) {}
+
+// Assumed (trusted) fact about strconv: parsing the canonical decimal text of v succeeds and gives v back
+// (strconv.ParseUint(strconv.FormatUint(v, 10), 10, 64) == v), stated for any byte sequence equal to that text.
+//@ func LemmaParseFormat
+//@   trusted
+//@   requires s == decText(v)
+//@   ensures decOK(s) && decVal(s) == v
+
+func LemmaParseFormat(s []byte, v uint64) {}
